@@ -100,6 +100,12 @@ class FIXSRC(cccc.Stream):
         self._rwFileID()
         self._rw1DRecord()
 
+        if "r" in self._fileMode:
+            # the dimensions are only known once the file control record has been read
+            self.fixSrc = np.zeros(
+                (self.fc["ninti"], self.fc["nintj"], self.fc["nintk"], self.fc["ngroup"])
+            )
+
         ng = self.fc["ngroup"]
         nz = self.fc["nintk"]
         for g in range(ng):
